@@ -57,6 +57,7 @@ type vestCfg struct {
 	poolDefs        []poolDef // explicit create-pool events (instead of owners x pools x poolSpecs)
 	sendRestartBoth bool
 	withUpper       bool // the first owner also sends its messages with its address spelled in upper-case bech32
+	withMulti       bool // transactions carrying two messages (second failing / both succeeding)
 }
 
 type poolDef struct {
@@ -204,6 +205,33 @@ func vestEvents(c vestCfg) []Ev {
 			return vtypes.NewMsgSendToVestingAccount(up(), to, p0, sdk.NewInt(3), true), o0
 		}})
 	}
+	if c.withMulti {
+		ps := poolSpec{10, 5 * time.Second, "t5"}
+		if len(c.poolSpecs) > 0 {
+			ps = c.poolSpecs[0]
+		}
+		// one transaction, two messages: the first succeeds, the second cannot (unknown pool), so
+		// nothing of the first may remain
+		evs = append(evs, Ev{Name: fmt.Sprintf("tx[pool(%s,%s,%d,%s,%s); send(%s.nopool,3,->fresh)]", o0, p0, ps.amount, ps.dur, ps.vtype, o0), Build: func(v View) (sdk.Msg, string) {
+			return vtypes.NewMsgCreateVestingPool(harness.AddrS(o0), p0, sdk.NewInt(ps.amount), ps.dur, ps.vtype), o0
+		}, Then: func(v View) []sdk.Msg {
+			_, to := freshAddr(v)
+			if to == "" {
+				to = harness.AddrS("R9")
+			}
+			return []sdk.Msg{vtypes.NewMsgSendToVestingAccount(harness.AddrS(o0), to, "nopool", sdk.NewInt(3), true)}
+		}})
+		// both succeed (when the pool exists): withdraw, then send from what is left
+		evs = append(evs, Ev{Name: fmt.Sprintf("tx[withdraw(%s); send(%s.%s,1,->fresh)]", o0, o0, p0), Build: func(v View) (sdk.Msg, string) {
+			return vtypes.NewMsgWithdrawAllAvailable(harness.AddrS(o0)), o0
+		}, Then: func(v View) []sdk.Msg {
+			_, to := freshAddr(v)
+			if to == "" {
+				to = harness.AddrS("R9")
+			}
+			return []sdk.Msg{vtypes.NewMsgSendToVestingAccount(harness.AddrS(o0), to, p0, sdk.NewInt(1), true)}
+		}})
+	}
 	if c.withExtra {
 		evs = append(evs, Ev{Name: "createVA(A->fresh,4)", Build: func(v View) (sdk.Msg, string) {
 			_, to := freshAddr(v)
@@ -295,6 +323,11 @@ func vestStep(prop string) func(si *StepInfo) (interface{}, []*explore.Violation
 		var vs []*explore.Violation
 		bad := func(sig, f string, a ...interface{}) {
 			vs = append(vs, &explore.Violation{Property: prop, What: fmt.Sprintf(f, a...), Sig: prop + ":" + sig})
+		}
+		if si.Ev.Then != nil {
+			// a transaction with several messages is not predicted message by message: the model is
+			// re-read and the state invariant plus the rollback check of the conformance replay decide
+			return newPoolModel(si.W, si.Post), nil
 		}
 		if o := msgOwner(si.Msg); o != "" && !canonicalAddr(o) {
 			// The property speaks about pools and coins, not about which spelling of an address finds
